@@ -410,4 +410,12 @@ def _replay_semtok_units(text):
         return not any(verdict.values()), {'text': text, 'decoded (start, length)': toks, 'consistent_in': verdict}
     return rp
 
-KERNELS = [k1, k2, k3, k4, k5, k6]
+# ---------------------------------------------------------------------------------------------- K7 the tokens are computed from the document text: preprocessing keeps every position (= C05-K2)
+@kernel('K7 preprocessor.positions_kept')
+def k7(ctx, kr):
+    """LspProject::tokenize highlights the tokens of preprocess(document): the decoded ranges lie in the document only if preprocessing keeps every byte offset and line break. Same kernel as C05-K2."""
+    from . import C05 as K05
+    K05.k2(ctx, kr)
+    for f in kr.findings: f.role = f.role.replace('C05/K2/', 'C15/K7/')
+
+KERNELS = [k1, k2, k3, k4, k5, k6, k7]
